@@ -142,7 +142,60 @@ func (k *kase) mutate(vs *types.ValidatorSet) string {
 	}
 }
 
+// aliasing: values handed in or out must be copies ("All get/set to validators should copy the value").
+func (k *kase) aliasing() {
+	in := make([]*types.Validator, len(k.vals))
+	for i, v := range k.vals {
+		in[i] = v.Copy()
+	}
+	vs := types.NewValidatorSet(in)
+	for i, n := 0, k.r.Range(0, 3); i < n; i++ {
+		vs.IncrementAccum(1)
+	}
+	before := observe(vs)
+	scribble := func(v *types.Validator) {
+		if v != nil {
+			v.Accum += 12345
+			v.VotingPower = v.VotingPower/2 + 7
+		}
+	}
+	check := func(what string) bool {
+		k.c.Count("aliasing_checks", 1)
+		if d := observe(vs).diff(before); d != "" {
+			k.viol("copy/value-handed-in-or-out-aliases-the-set", "writing to "+what+" changed the set's "+d, map[string]interface{}{"before": before.s.view(), "after": snapOf(vs).view()})
+			return false
+		}
+		return true
+	}
+	scribble(in[k.r.Intn(len(in))])
+	if !check("a validator of the list given to NewValidatorSet") {
+		return
+	}
+	scribble(vs.GetProposer())
+	if !check("the value returned by GetProposer()") {
+		return
+	}
+	_, v := vs.GetByIndex(k.r.Intn(vs.Size()))
+	scribble(v)
+	_, v = vs.GetByAddress(vs.Validators[k.r.Intn(vs.Size())].Address)
+	scribble(v)
+	vs.Iterate(func(i int, v *types.Validator) bool { scribble(v); return false })
+	if !check("the values returned by GetByIndex/GetByAddress/Iterate") {
+		return
+	}
+	nv := k.newVal(int64(k.r.Range(1, 50)))
+	vs.Add(nv)
+	uv := vs.Validators[k.r.Intn(vs.Size())].Copy()
+	uv.VotingPower = uv.VotingPower/2 + 3
+	vs.Update(uv)
+	before = observe(vs)
+	scribble(nv)
+	scribble(uv)
+	check("a validator previously given to Add/Update")
+}
+
 func (k *kase) copies() {
+	k.aliasing()
 	for dir := 0; dir < 2; dir++ {
 		O := types.NewValidatorSet(k.vals)
 		for i, n := 0, k.r.Range(0, 5); i < n; i++ {
@@ -544,8 +597,11 @@ func (k *kase) saturation(S *types.ValidatorSet) {
 			up := new(big.Int).Mul(big.NewInt(before.V[i].Power), bt)
 			up.Add(up, big.NewInt(before.V[i].Accum))
 			hi, c1 := sat(up)
-			// the subtractions (at most `times`, each of the clipped total) act on the saturated value
-			lo := new(big.Int).Sub(big.NewInt(hi), new(big.Int).Mul(big.NewInt(total), bt))
+			// the subtractions (at most `times`, each of the clipped total) act on a saturated value; the
+			// product times*power may saturate on its own before it is added (batch algorithm)
+			pm, _ := satMul(before.V[i].Power, int64(times))
+			upc, _ := satAdd(before.V[i].Accum, pm)
+			lo := new(big.Int).Sub(big.NewInt(upc), new(big.Int).Mul(big.NewInt(total), bt))
 			low, c2 := sat(lo)
 			if c1 || c2 {
 				k.c.Count("accum_bound_checks_saturating", 1)
